@@ -20,12 +20,12 @@ func init() { Drivers["hub"] = drvHub }
 type HubScenario struct {
 	ID    string `json:"id"`
 	Steps []struct {
-		Op    string          `json:"op"`
-		S     string          `json:"s"`
-		U     string          `json:"u"`
-		Index [][]string      `json:"index"`
-		Live  []string        `json:"live"`
-		Quiet bool            `json:"quiet"`
+		Op    string     `json:"op"`
+		S     string     `json:"s"`
+		U     string     `json:"u"`
+		Index [][]string `json:"index"`
+		Live  []string   `json:"live"`
+		Quiet bool       `json:"quiet"`
 	} `json:"steps"`
 }
 
